@@ -15,6 +15,7 @@ import (
 	"strconv"
 	"strings"
 	"sync"
+	"sync/atomic"
 	"time"
 )
 
@@ -295,3 +296,30 @@ func vrtPoint() {
 		s.mu.Lock()
 	}
 }
+
+// ---------------------------------------------------------------------------
+// Quiescence and the harness clock (native side). The engine lets every
+// library thread run until all are blocked; natively "quiescent" means that no
+// harness connection has seen activity for vrtQuietFor.
+
+var vrtLastActivity int64
+
+const vrtQuietFor = 25 * time.Millisecond
+
+func vrtTouch() { atomic.StoreInt64(&vrtLastActivity, time.Now().UnixNano()) }
+
+func vrtQuiesce() {
+	vrtTouch()
+	for {
+		time.Sleep(2 * time.Millisecond)
+		if time.Now().UnixNano()-atomic.LoadInt64(&vrtLastActivity) > int64(vrtQuietFor) {
+			return
+		}
+	}
+}
+
+var vrtClockOffset int64 // harness clock = real clock + offset (native side)
+
+func vrtClock() int64          { return time.Now().UnixNano() + atomic.LoadInt64(&vrtClockOffset) }
+func vrtClockSet(ns int64)     { atomic.StoreInt64(&vrtClockOffset, ns-time.Now().UnixNano()) }
+func vrtTimeNS(t time.Time) int64 { return t.UnixNano() + atomic.LoadInt64(&vrtClockOffset) }
